@@ -238,6 +238,15 @@ fn textual_memo_count(text: &str) -> usize {
     n
 }
 
+/// A source file of the harness itself (never one of /repo) may opt out of the table with a comment
+/// `T4-EXCLUDE: <reason>`: the engine then passes the sites of its functions in the requests.
+fn excluded_by_marker(path: &Path, text: &str) -> bool {
+    match std::env::var("CARGO_MANIFEST_DIR") {
+        Ok(own) => path.starts_with(&own) && text.contains("T4-EXCLUDE:"),
+        Err(_) => false,
+    }
+}
+
 struct FileScan {
     found: Vec<Found>,
     decls: Vec<ModDecl>,
@@ -283,6 +292,10 @@ fn scan_file(path: &Path) -> Result<FileScan, String> {
         found.push(z);
     }
     let textual = textual_memo_count(&text);
+    if excluded_by_marker(path, &text) {
+        // stated exclusion (files of the harness only): no site of this file enters the table
+        return Ok(FileScan { found: vec![], decls: c.decls, textual });
+    }
     if textual != found.len() {
         return Err(format!(
             "{}: {} textual #[memo] attribute(s) but {} parsed #[memo] function(s) (a site inside a macro body or an unusual attribute form?)",
@@ -485,7 +498,7 @@ fn scan_crate(scan: &mut Scan, dir: &Path) {
     for p in all {
         if !scan.reached.contains(&p) {
             if let Ok(t) = std::fs::read_to_string(&p) {
-                if textual_memo_count(&t) > 0 {
+                if textual_memo_count(&t) > 0 && !excluded_by_marker(&p, &t) {
                     scan.errors.push(format!("{}: contains #[memo] but is not reachable from any target root", p.display()));
                 }
             }
